@@ -369,7 +369,7 @@ func C12(r *ev.Report) {
 	pairVals := vals
 
 	if ev.Thorough() {
-		pairVals = alpha.Thin(vals, 7000)
+		pairVals = alpha.Thin(alpha.Values(ref.P, 2), 9000)
 	}
 
 	r.Rule("internal/field called directly from the in-module harness: Add/Subtract/Multiply/CMove(0|1)/Equals on all ordered pairs of V_p (canonical- and Montgomery-structured limb products closed under negation and +-1) in the aliasing shapes distinct, e=u, e=v (every pair) and u=v, e=u=v (diagonal); Negate/Square/Set/Invert (aliased and not), IsZero/Sgn0/Bytes on all of V_p; SqrtRatio on V_p x a 48-value slice; FromBytesWithReduce on limb-product strings and the window around p; HashToFieldElement on the 6-limb product of 48-byte strings and around multiples of p; non-trivial = both operands >= 2^64")
